@@ -424,25 +424,14 @@ where
         Type::Builtin(b) => Ty::Id(b.to_str().into()),
         Type::Ident(id) => Ty::Id(ident(id.name.as_ref())),
         Type::Generic(g) => Ty::Id(g.id.as_ref().into()),
-        Type::Alias(a) => Ty::Id(ident(a.name.as_ref())),
+        // printed by `printer.symbol(&alias.name)`: the whole symbol text
+        Type::Alias(a) => Ty::Id(a.name.as_ref().to_string()),
         Type::Projection(ids) => Ty::Id(ids.iter().map(|i| i.as_ref().to_string()).collect::<Vec<_>>().join(".")),
         Type::Variable(v) => Ty::Other(format!("var{}", v.id)),
         Type::Skolem(s) => Ty::Other(format!("{}@{}", s.name.as_ref(), s.id)),
         Type::Forall(ps, t) => Ty::Forall(ps.iter().map(|g| g.id.as_ref().to_string()).collect(), Box::new(canon(t))),
         Type::Function(at, a, r) => Ty::Fun(*at == ArgType::Implicit, Box::new(canon(a)), Box::new(canon(r))),
-        Type::App(f, args) => {
-            if let Some((a, r)) = t.as_function() {
-                return Ty::Fun(false, Box::new(canon(a)), Box::new(canon(r)));
-            }
-            let mut cargs: Vec<Ty> = args.iter().map(canon).collect();
-            match canon(f) {
-                Ty::App(f2, mut a2) => {
-                    a2.append(&mut cargs);
-                    Ty::App(f2, a2)
-                }
-                cf => Ty::App(Box::new(cf), cargs),
-            }
-        }
+        Type::App(f, args) => Ty::App(Box::new(canon(f)), args.iter().map(canon).collect()),
         Type::Record(r) => {
             let (mut tfs, mut fs) = (vec![], vec![]);
             let rest = row(r, &mut tfs, &mut fs);
@@ -484,6 +473,51 @@ where
 }
 fn strip_implicit(t: &Ty) -> Ty {
     t.clone()
+}
+
+/// The equivalence the round trip is judged by: nested applications are one application
+/// (`(F a) b` = `F a b`) and `(->) a b` is `a -> b` (`as_function`, base/src/types/mod.rs:1306).
+fn norm(t: &Ty) -> Ty {
+    let opt = |r: &Option<Box<Ty>>| r.as_ref().map(|t| Box::new(norm(t)));
+    match t {
+        Ty::Id(_) | Ty::FunCon | Ty::Other(_) => t.clone(),
+        Ty::Fun(i, a, r) => Ty::Fun(*i, Box::new(norm(a)), Box::new(norm(r))),
+        Ty::App(f, args) => {
+            let mut cargs: Vec<Ty> = args.iter().map(norm).collect();
+            let (h, all) = match norm(f) {
+                Ty::App(f2, mut a2) => {
+                    a2.append(&mut cargs);
+                    (*f2, a2)
+                }
+                cf => (cf, cargs),
+            };
+            if h == Ty::FunCon && all.len() == 2 {
+                Ty::Fun(false, Box::new(all[0].clone()), Box::new(all[1].clone()))
+            } else if all.is_empty() {
+                h
+            } else {
+                Ty::App(Box::new(h), all)
+            }
+        }
+        Ty::Forall(vs, t) => Ty::Forall(vs.clone(), Box::new(norm(t))),
+        Ty::Record(tfs, fs, r) => Ty::Record(tfs.iter().map(|(n, p, t)| (n.clone(), p.clone(), norm(t))).collect(), fs.iter().map(|(n, t)| (n.clone(), norm(t))).collect(), opt(r)),
+        Ty::Variant(cs, r) => Ty::Variant(
+            cs.iter()
+                .map(|(n, c)| {
+                    (
+                        n.clone(),
+                        match c {
+                            Ctor::Simple(ts) => Ctor::Simple(ts.iter().map(norm).collect()),
+                            Ctor::Gadt(t) => Ctor::Gadt(norm(t)),
+                        },
+                    )
+                })
+                .collect(),
+            opt(r),
+        ),
+        Ty::Tuple(ts) => Ty::Tuple(ts.iter().map(norm).collect()),
+        Ty::Effect(fs, r) => Ty::Effect(fs.iter().map(|(n, t)| (n.clone(), norm(t))).collect(), opt(r)),
+    }
 }
 
 // ---------------------------------------------------------------------------------------------
@@ -687,6 +721,999 @@ fn probe_raw() {
     }
 }
 
+// ---------------------------------------------------------------------------------------------
+// s-expression reader (corpus / replay; names are spelled out)
+// ---------------------------------------------------------------------------------------------
+#[derive(Debug, Clone)]
+enum Sx {
+    A(String),
+    L(Vec<Sx>),
+}
+fn read_sx(s: &str) -> Result<Sx, String> {
+    fn item(b: &[u8], i: &mut usize) -> Result<Sx, String> {
+        while *i < b.len() && b[*i] == b' ' {
+            *i += 1;
+        }
+        if *i >= b.len() {
+            return Err("eof".into());
+        }
+        if b[*i] == b'(' {
+            *i += 1;
+            let mut v = vec![];
+            loop {
+                while *i < b.len() && b[*i] == b' ' {
+                    *i += 1;
+                }
+                if *i >= b.len() {
+                    return Err("missing )".into());
+                }
+                if b[*i] == b')' {
+                    *i += 1;
+                    return Ok(Sx::L(v));
+                }
+                v.push(item(b, i)?);
+            }
+        }
+        let st = *i;
+        while *i < b.len() && b[*i] != b' ' && b[*i] != b'(' && b[*i] != b')' {
+            *i += 1;
+        }
+        Ok(Sx::A(String::from_utf8_lossy(&b[st..*i]).to_string()))
+    }
+    let mut i = 0;
+    item(s.as_bytes(), &mut i)
+}
+fn ty_of_sx(x: &Sx) -> Result<Ty, String> {
+    let atom = |x: &Sx| match x {
+        Sx::A(s) => Ok(s.clone()),
+        _ => Err("atom expected".to_string()),
+    };
+    let list = |x: &Sx| match x {
+        Sx::L(v) => Ok(v.clone()),
+        _ => Err("list expected".to_string()),
+    };
+    let names = |x: &Sx| -> Result<Vec<String>, String> { list(x)?.iter().map(|a| atom(a)).collect() };
+    let tys = |x: &Sx| -> Result<Vec<Ty>, String> { list(x)?.iter().map(ty_of_sx).collect() };
+    let rest = |x: &Sx| -> Result<Option<Box<Ty>>, String> {
+        match x {
+            Sx::A(s) if s == "none" => Ok(None),
+            Sx::L(v) if v.len() == 2 => Ok(Some(Box::new(ty_of_sx(&v[1])?))),
+            _ => Err("rest".into()),
+        }
+    };
+    let fields = |x: &Sx| -> Result<Vec<(String, Ty)>, String> {
+        list(x)?
+            .iter()
+            .map(|f| {
+                let f = list(f)?;
+                if f.len() != 3 {
+                    return Err("field".to_string());
+                }
+                Ok((atom(&f[1])?, ty_of_sx(&f[2])?))
+            })
+            .collect()
+    };
+    let v = list(x)?;
+    let head = atom(v.get(0).ok_or("empty")?)?;
+    match (head.as_str(), v.len()) {
+        ("id", 2) => Ok(Ty::Id(atom(&v[1])?)),
+        ("funcon", 1) => Ok(Ty::FunCon),
+        ("fun", 3) => Ok(Ty::Fun(false, Box::new(ty_of_sx(&v[1])?), Box::new(ty_of_sx(&v[2])?))),
+        ("ifun", 3) => Ok(Ty::Fun(true, Box::new(ty_of_sx(&v[1])?), Box::new(ty_of_sx(&v[2])?))),
+        ("app", 3) => Ok(Ty::App(Box::new(ty_of_sx(&v[1])?), tys(&v[2])?)),
+        ("forall", 3) => Ok(Ty::Forall(names(&v[1])?, Box::new(ty_of_sx(&v[2])?))),
+        ("record", 4) => {
+            let tfs = list(&v[1])?
+                .iter()
+                .map(|f| {
+                    let f = list(f)?;
+                    if f.len() != 3 {
+                        return Err("type field".to_string());
+                    }
+                    Ok((atom(&f[0])?, names(&f[1])?, ty_of_sx(&f[2])?))
+                })
+                .collect::<Result<Vec<_>, String>>()?;
+            Ok(Ty::Record(tfs, fields(&v[2])?, rest(&v[3])?))
+        }
+        ("variant", 3) => {
+            let cs = list(&v[1])?
+                .iter()
+                .map(|c| {
+                    let c = list(c)?;
+                    if c.len() != 3 {
+                        return Err("ctor".to_string());
+                    }
+                    match atom(&c[0])?.as_str() {
+                        "simple" => Ok((atom(&c[1])?, Ctor::Simple(tys(&c[2])?))),
+                        "gadt" => Ok((atom(&c[1])?, Ctor::Gadt(ty_of_sx(&c[2])?))),
+                        _ => Err("ctor kind".to_string()),
+                    }
+                })
+                .collect::<Result<Vec<_>, String>>()?;
+            Ok(Ty::Variant(cs, rest(&v[2])?))
+        }
+        ("tuple", 2) => Ok(Ty::Tuple(tys(&v[1])?)),
+        ("effect", 3) => Ok(Ty::Effect(fields(&v[1])?, rest(&v[2])?)),
+        _ => Err(format!("unknown type form {}", head)),
+    }
+}
+
+// ---------------------------------------------------------------------------------------------
+// names <-> numbers for the model protocol
+// ---------------------------------------------------------------------------------------------
+struct Names {
+    map: std::collections::HashMap<String, usize>,
+    next_even: usize,
+    next_odd: usize,
+}
+impl Names {
+    fn new() -> Names {
+        let mut map = std::collections::HashMap::new();
+        map.insert("_".to_string(), 0);
+        Names { map, next_even: 2, next_odd: 1 }
+    }
+    /// Names with an initial uppercase letter are odd, all others even (TypeSyntax.v [upper]).
+    fn get(&mut self, s: &str) -> usize {
+        if let Some(k) = self.map.get(s) {
+            return *k;
+        }
+        let up = s.starts_with(char::is_uppercase);
+        let k = if up {
+            self.next_odd += 2;
+            self.next_odd - 2
+        } else {
+            self.next_even += 2;
+            self.next_even - 2
+        };
+        self.map.insert(s.to_string(), k);
+        k
+    }
+    /// the numeric rendering of a type for the model driver
+    fn num(&mut self, t: &Ty) -> Ty {
+        let mut f = |s: &String, me: &mut Names| me.get(s).to_string();
+        fn go(t: &Ty, me: &mut Names, f: &mut dyn FnMut(&String, &mut Names) -> String) -> Ty {
+            let opt = |r: &Option<Box<Ty>>, me: &mut Names, f: &mut dyn FnMut(&String, &mut Names) -> String| r.as_ref().map(|t| Box::new(go(t, me, f)));
+            match t {
+                Ty::Id(n) => Ty::Id(f(n, me)),
+                Ty::FunCon => Ty::FunCon,
+                Ty::Other(s) => Ty::Other(s.clone()),
+                Ty::Fun(i, a, r) => Ty::Fun(*i, Box::new(go(a, me, f)), Box::new(go(r, me, f))),
+                Ty::App(h, args) => Ty::App(Box::new(go(h, me, f)), args.iter().map(|a| go(a, me, f)).collect()),
+                Ty::Forall(vs, t) => Ty::Forall(vs.iter().map(|v| f(v, me)).collect(), Box::new(go(t, me, f))),
+                Ty::Record(tfs, fs, r) => Ty::Record(
+                    tfs.iter().map(|(n, ps, t)| (f(n, me), ps.iter().map(|p| f(p, me)).collect(), go(t, me, f))).collect(),
+                    fs.iter().map(|(n, t)| (opname(n, me, f), go(t, me, f))).collect(),
+                    opt(r, me, f),
+                ),
+                Ty::Variant(cs, r) => Ty::Variant(
+                    cs.iter()
+                        .map(|(n, c)| {
+                            (
+                                f(n, me),
+                                match c {
+                                    Ctor::Simple(ts) => Ctor::Simple(ts.iter().map(|a| go(a, me, f)).collect()),
+                                    Ctor::Gadt(t) => Ctor::Gadt(go(t, me, f)),
+                                },
+                            )
+                        })
+                        .collect(),
+                    opt(r, me, f),
+                ),
+                Ty::Tuple(ts) => Ty::Tuple(ts.iter().map(|a| go(a, me, f)).collect()),
+                Ty::Effect(fs, r) => Ty::Effect(fs.iter().map(|(n, t)| (opname(n, me, f), go(t, me, f))).collect(), opt(r, me, f)),
+            }
+        }
+        // operator field names keep a leading `+` so that `sexp` still renders them as (op N ..)
+        fn opname(n: &String, me: &mut Names, f: &mut dyn FnMut(&String, &mut Names) -> String) -> String {
+            if is_op_name(n) { format!("+{}", f(n, me)) } else { f(n, me) }
+        }
+        go(t, self, &mut f)
+    }
+    fn tok(&mut self, s: &str) -> String {
+        match s {
+            "(" => "lp".into(),
+            ")" => "rp".into(),
+            "[" => "lb".into(),
+            "]" => "rb".into(),
+            "{" => "lc".into(),
+            "}" => "rc".into(),
+            "," => "comma".into(),
+            ":" => "colon".into(),
+            "=" => "eq".into(),
+            "|" => "pipe".into(),
+            "." => "dot".into(),
+            ".." => "dotdot".into(),
+            "->" => "arrow".into(),
+            "forall" => "forall".into(),
+            _ if is_op_name(s) => format!("o{}", self.get(s)),
+            _ => format!("i{}", self.get(s)),
+        }
+    }
+}
+/// numeric s-expression (operator field names were marked with a leading `+` by `Names::num`)
+fn sx_num(t: &Ty) -> String {
+    sx(t).replace("(op +", "(op ")
+}
+
+/// Is a parsed type inside the modelled fragment?
+fn in_fragment(t: &Ty) -> bool {
+    let name_ok = |n: &String| !n.is_empty() && !is_op_name(n) && !n.contains('.');
+    let opt = |r: &Option<Box<Ty>>| r.as_ref().map(|t| in_fragment(t)).unwrap_or(true);
+    match t {
+        Ty::Id(n) => name_ok(n),
+        Ty::FunCon => true,
+        Ty::Other(_) => false,
+        Ty::Fun(_, a, r) => in_fragment(a) && in_fragment(r),
+        Ty::App(f, args) => in_fragment(f) && args.iter().all(in_fragment),
+        Ty::Forall(vs, t) => vs.iter().all(name_ok) && in_fragment(t),
+        Ty::Record(tfs, fs, r) => tfs.iter().all(|x| name_ok(&x.0) && x.1.iter().all(name_ok) && in_fragment(&x.2)) && fs.iter().all(|x| in_fragment(&x.1)) && opt(r),
+        Ty::Variant(cs, r) => {
+            cs.iter().all(|(n, c)| {
+                name_ok(n)
+                    && match c {
+                        Ctor::Simple(ts) => ts.iter().all(in_fragment),
+                        Ctor::Gadt(t) => in_fragment(t),
+                    }
+            }) && opt(r)
+        }
+        Ty::Tuple(ts) => ts.iter().all(in_fragment),
+        Ty::Effect(fs, r) => fs.iter().all(|x| in_fragment(&x.1)) && opt(r),
+    }
+}
+
+// ---------------------------------------------------------------------------------------------
+// classification of an input type (syntactic, on the input only)
+// ---------------------------------------------------------------------------------------------
+/// "plain" = in the normal form of TypeSyntaxProofs.v ([nf] / [vnf]); the other classes are the
+/// shapes outside it, each named after the reason.
+fn class_of(t: &Ty) -> &'static str {
+    fn atomic(t: &Ty) -> bool {
+        matches!(t, Ty::Id(_) | Ty::FunCon | Ty::Tuple(_) | Ty::Effect(..)) || matches!(t, Ty::Record(..))
+    }
+    fn walk(t: &Ty, root: bool, out: &mut Vec<&'static str>) {
+        let opt = |r: &Option<Box<Ty>>, out: &mut Vec<&'static str>| {
+            if let Some(t) = r {
+                walk(t, false, out)
+            }
+        };
+        match t {
+            Ty::Id(_) | Ty::FunCon => {}
+            Ty::Other(_) => out.push("outside-fragment"),
+            Ty::Fun(_, a, r) => {
+                walk(a, false, out);
+                walk(r, false, out)
+            }
+            Ty::App(f, args) => {
+                if !atomic(f) {
+                    out.push("app-head-not-atomic");
+                }
+                if args.is_empty() {
+                    out.push("app-without-arguments");
+                }
+                if matches!(**f, Ty::FunCon) && args.len() == 2 {
+                    out.push("function-as-application");
+                }
+                walk(f, false, out);
+                args.iter().for_each(|a| walk(a, false, out))
+            }
+            Ty::Forall(vs, t) => {
+                if vs.is_empty() {
+                    out.push("forall-without-binders");
+                }
+                walk(t, false, out)
+            }
+            Ty::Record(tfs, fs, r) => {
+                if tfs.is_empty() && fs.is_empty() {
+                    out.push(if r.is_some() { "open-empty-record" } else { "unit-as-record" });
+                }
+                tfs.iter().for_each(|x| walk(&x.2, false, out));
+                fs.iter().for_each(|x| walk(&x.1, false, out));
+                opt(r, out)
+            }
+            Ty::Variant(cs, r) => {
+                if !root {
+                    out.push("variant-below-root");
+                }
+                if cs.is_empty() && r.is_none() {
+                    out.push("empty-variant");
+                }
+                if let Some(r) = r {
+                    if !atomic(r) {
+                        out.push("variant-tail-not-atomic");
+                    }
+                }
+                for (_, c) in cs {
+                    match c {
+                        Ctor::Simple(ts) => ts.iter().for_each(|a| walk(a, false, out)),
+                        Ctor::Gadt(t) => {
+                            let mut cur = t;
+                            while let Ty::Fun(imp, _, r) = cur {
+                                if *imp {
+                                    out.push("gadt-implicit-argument");
+                                }
+                                cur = r;
+                            }
+                            walk(t, false, out)
+                        }
+                    }
+                }
+                opt(r, out)
+            }
+            Ty::Tuple(ts) => {
+                if ts.len() == 1 {
+                    out.push("singleton-tuple");
+                }
+                ts.iter().for_each(|a| walk(a, false, out))
+            }
+            Ty::Effect(fs, r) => {
+                fs.iter().for_each(|x| walk(&x.1, false, out));
+                opt(r, out)
+            }
+        }
+    }
+    let mut v = vec![];
+    walk(t, true, &mut v);
+    v.sort();
+    v.first().copied().unwrap_or("plain")
+}
+
+// ---------------------------------------------------------------------------------------------
+// generators
+// ---------------------------------------------------------------------------------------------
+fn id(s: &str) -> Ty {
+    Ty::Id(s.to_string())
+}
+fn bx(t: &Ty) -> Box<Ty> {
+    Box::new(t.clone())
+}
+
+/// All lists of `k` types with total size `n` (k >= 1), from `by_size[1..]`.
+fn lists(by_size: &[Vec<Ty>], k: usize, n: usize, max: usize) -> Vec<Vec<Ty>> {
+    if k == 0 {
+        return if n == 0 { vec![vec![]] } else { vec![] };
+    }
+    let mut out = vec![];
+    for s in 1..=n {
+        if s >= by_size.len() || n - s < k - 1 {
+            continue;
+        }
+        for rest in lists(by_size, k - 1, n - s, max) {
+            for t in &by_size[s] {
+                let mut v = vec![t.clone()];
+                v.extend(rest.iter().cloned());
+                out.push(v);
+                if out.len() >= max {
+                    return out;
+                }
+            }
+        }
+    }
+    out
+}
+
+/// Exhaustive enumeration of the variant-free normal-form types of each size <= maxsize over a
+/// small alphabet.  by_size[n] = all types of size n.
+fn enumerate(maxsize: usize) -> Vec<Vec<Ty>> {
+    let mut by: Vec<Vec<Ty>> = vec![vec![], vec![id("Int"), id("a"), Ty::Tuple(vec![])]];
+    let heads = [id("F"), id("a")];
+    let r = || Some(Box::new(id("r")));
+    for n in 2..=maxsize {
+        let mut cur: Vec<Ty> = vec![];
+        // functions
+        for n1 in 1..=(n - 2) {
+            let n2 = n - 1 - n1;
+            for a in &by[n1] {
+                for b in &by[n2] {
+                    cur.push(Ty::Fun(false, bx(a), bx(b)));
+                    cur.push(Ty::Fun(true, bx(a), bx(b)));
+                }
+            }
+        }
+        // applications: head (size 1) + k arguments
+        for k in 1..=3 {
+            if n < 2 + k {
+                continue;
+            }
+            for args in lists(&by, k, n - 2, usize::MAX) {
+                for h in &heads {
+                    cur.push(Ty::App(bx(h), args.clone()));
+                }
+            }
+        }
+        // forall
+        for t in &by[n - 1] {
+            cur.push(Ty::Forall(vec!["a".into()], bx(t)));
+        }
+        if n >= 3 {
+            for t in &by[n - 2] {
+                cur.push(Ty::Forall(vec!["a".into(), "b".into()], bx(t)));
+            }
+        }
+        // records: one field, closed / open; operator field; type field; two fields
+        for t in &by[n - 1] {
+            cur.push(Ty::Record(vec![], vec![("x".into(), t.clone())], None));
+            cur.push(Ty::Record(vec![], vec![("+".into(), t.clone())], None));
+            cur.push(Ty::Record(vec![("Test".into(), vec!["a".into()], t.clone())], vec![], None));
+            cur.push(Ty::Effect(vec![("st".into(), t.clone())], None));
+        }
+        if n >= 3 {
+            for t in &by[n - 2] {
+                cur.push(Ty::Record(vec![], vec![("x".into(), t.clone())], r()));
+                cur.push(Ty::Record(vec![("Test".into(), vec![], t.clone())], vec![], r()));
+                cur.push(Ty::Effect(vec![("st".into(), t.clone())], r()));
+            }
+            for fs in lists(&by, 2, n - 1, usize::MAX) {
+                cur.push(Ty::Record(vec![], vec![("x".into(), fs[0].clone()), ("+".into(), fs[1].clone())], None));
+                cur.push(Ty::Record(vec![("Test".into(), vec!["a".into()], fs[0].clone())], vec![("y".into(), fs[1].clone())], None));
+                cur.push(Ty::Tuple(fs.clone()));
+            }
+        }
+        if n >= 4 {
+            for fs in lists(&by, 3, n - 1, usize::MAX) {
+                cur.push(Ty::Tuple(fs.clone()));
+            }
+            for fs in lists(&by, 2, n - 2, usize::MAX) {
+                cur.push(Ty::Record(vec![("Test".into(), vec![], fs[0].clone())], vec![("y".into(), fs[1].clone())], r()));
+            }
+        }
+        by.push(cur);
+    }
+    by
+}
+
+/// Root variants (the body of a type declaration) whose constructor arguments / GADT types are
+/// drawn from the enumerated variant-free types.
+fn enumerate_variants(by: &[Vec<Ty>], maxsize: usize) -> Vec<Ty> {
+    let mut out = vec![];
+    let r = || Some(Box::new(id("r")));
+    for n in 2..=maxsize {
+        // one constructor with k arguments
+        for k in 0..=3usize {
+            if n < 2 + k {
+                continue;
+            }
+            for args in lists(by, k, n - 2, usize::MAX) {
+                if k == 0 && n != 2 {
+                    continue;
+                }
+                out.push(Ty::Variant(vec![("A".into(), Ctor::Simple(args.clone()))], None));
+                if n + 1 <= maxsize {
+                    out.push(Ty::Variant(vec![("A".into(), Ctor::Simple(args.clone()))], r()));
+                    out.push(Ty::Variant(vec![("A".into(), Ctor::Simple(args.clone())), ("B".into(), Ctor::Simple(vec![]))], None));
+                    out.push(Ty::Variant(vec![("B".into(), Ctor::Simple(vec![])), ("A".into(), Ctor::Simple(args.clone()))], None));
+                }
+            }
+        }
+        // GADT constructor
+        if n >= 3 {
+            for t in &by[n - 2] {
+                out.push(Ty::Variant(vec![("A".into(), Ctor::Gadt(t.clone()))], None));
+                if n + 1 <= maxsize {
+                    out.push(Ty::Variant(vec![("A".into(), Ctor::Gadt(t.clone())), ("B".into(), Ctor::Simple(vec![id("Int")]))], None));
+                    out.push(Ty::Variant(vec![("B".into(), Ctor::Simple(vec![id("Int")])), ("A".into(), Ctor::Gadt(t.clone()))], r()));
+                }
+            }
+        }
+        // two constructors with arguments
+        if n >= 5 {
+            for args in lists(by, 2, n - 3, usize::MAX) {
+                out.push(Ty::Variant(vec![("A".into(), Ctor::Simple(vec![args[0].clone()])), ("B".into(), Ctor::Simple(vec![args[1].clone()]))], None));
+            }
+        }
+    }
+    out.push(Ty::Variant(vec![], r()));
+    out
+}
+
+const UPPER: &[&str] = &["Int", "String", "Float", "Bool", "Option", "Result", "Map", "List", "F", "Test", "IO", "Array", "Eff", "State", "VeryLongTypeConstructorName", "AnotherQuiteLongTypeName"];
+const LOWER: &[&str] = &["a", "b", "c", "r", "s", "elem", "key", "a_rather_long_type_variable", "value'"];
+const FIELDS: &[&str] = &["x", "y", "name", "value", "+", "<|>", ">>=", "a_long_record_field_name", "flat_map", "=="];
+const CTORS: &[&str] = &["A", "B", "Cons", "Nil", "Some", "None", "AVeryLongConstructorName"];
+
+struct Gen<'a> {
+    rng: &'a mut Rng,
+}
+impl<'a> Gen<'a> {
+    fn atom(&mut self) -> Ty {
+        match self.rng.below(12) {
+            0..=4 => id(*self.rng.pick(UPPER)),
+            5..=8 => id(*self.rng.pick(LOWER)),
+            9 => Ty::Tuple(vec![]),
+            10 => Ty::Effect(vec![], None),
+            _ => id("_"),
+        }
+    }
+    fn head(&mut self, budget: usize) -> Ty {
+        match self.rng.below(12) {
+            0..=5 => id(*self.rng.pick(UPPER)),
+            6..=7 => id(*self.rng.pick(LOWER)),
+            8 => Ty::FunCon,
+            9 if budget >= 3 => self.effect(budget),
+            10 if budget >= 3 => self.record(budget),
+            _ => id(*self.rng.pick(UPPER)),
+        }
+    }
+    fn split(&mut self, budget: usize, k: usize) -> Vec<usize> {
+        // k positive parts summing to at most budget
+        let mut parts = vec![1; k];
+        let mut left = budget.saturating_sub(k);
+        while left > 0 {
+            let i = self.rng.below(k as u64) as usize;
+            parts[i] += 1;
+            left -= 1;
+        }
+        parts
+    }
+    fn rest(&mut self) -> Option<Box<Ty>> {
+        if self.rng.chance(1, 3) { Some(Box::new(id(*self.rng.pick(LOWER)))) } else { None }
+    }
+    fn fields(&mut self, budget: usize) -> Vec<(String, Ty)> {
+        let k = 1 + self.rng.below(3.min(budget as u64)) as usize;
+        let parts = self.split(budget, k);
+        let mut names: Vec<&str> = vec![];
+        let mut out = vec![];
+        for p in parts {
+            let mut n = *self.rng.pick(FIELDS);
+            let mut guard = 0;
+            while names.contains(&n) && guard < 20 {
+                n = *self.rng.pick(FIELDS);
+                guard += 1;
+            }
+            names.push(n);
+            out.push((n.to_string(), self.ty(p)));
+        }
+        out
+    }
+    fn record(&mut self, budget: usize) -> Ty {
+        let with_types = self.rng.chance(1, 3);
+        let mut tfs = vec![];
+        let mut b = budget.saturating_sub(1).max(1);
+        if with_types {
+            let nt = 1 + self.rng.below(2) as usize;
+            for i in 0..nt {
+                let sz = 1 + self.rng.below((b / 2).max(1) as u64) as usize;
+                b = b.saturating_sub(sz).max(1);
+                let np = self.rng.below(3) as usize;
+                let ps = LOWER[..np].iter().map(|s| s.to_string()).collect();
+                tfs.push(([ "Test", "Elem", "Key" ][i].to_string(), ps, self.ty(sz)));
+            }
+        }
+        let fs = if with_types && self.rng.chance(1, 3) { vec![] } else { self.fields(b) };
+        Ty::Record(tfs, fs, self.rest())
+    }
+    fn effect(&mut self, budget: usize) -> Ty {
+        let fs = if self.rng.chance(1, 6) {
+            vec![]
+        } else {
+            self.fields(budget.saturating_sub(1).max(1)).into_iter().filter(|(n, _)| !is_op_name(n)).collect()
+        };
+        Ty::Effect(fs, self.rest())
+    }
+    /// variant-free normal-form type of size about `budget`
+    fn ty(&mut self, budget: usize) -> Ty {
+        if budget <= 1 {
+            return self.atom();
+        }
+        match self.rng.below(16) {
+            0..=3 => {
+                let parts = self.split(budget - 1, 2);
+                let imp = self.rng.chance(1, 4);
+                Ty::Fun(imp, Box::new(self.ty(parts[0])), Box::new(self.ty(parts[1])))
+            }
+            4..=7 => {
+                let k = 1 + self.rng.below(3.min((budget - 1) as u64)) as usize;
+                let parts = self.split(budget - 1, k);
+                let h = self.head(budget);
+                let args: Vec<Ty> = parts.into_iter().map(|p| self.ty(p)).collect();
+                if matches!(h, Ty::FunCon) && args.len() == 2 {
+                    // `(->) a b` is the same type as `a -> b` and is printed as such (as_function)
+                    return Ty::Fun(false, Box::new(args[0].clone()), Box::new(args[1].clone()));
+                }
+                Ty::App(Box::new(h), args)
+            }
+            8..=9 => {
+                let nv = 1 + self.rng.below(3) as usize;
+                Ty::Forall(LOWER[..nv].iter().map(|s| s.to_string()).collect(), Box::new(self.ty(budget - 1)))
+            }
+            10..=12 => self.record(budget),
+            13 => {
+                let k = 2 + self.rng.below(2.min((budget.saturating_sub(2)).max(1) as u64)) as usize;
+                let parts = self.split((budget - 1).max(k), k);
+                Ty::Tuple(parts.into_iter().map(|p| self.ty(p)).collect())
+            }
+            14 => self.effect(budget),
+            _ => self.atom(),
+        }
+    }
+    fn variant(&mut self, budget: usize) -> Ty {
+        let k = 1 + self.rng.below(4) as usize;
+        let parts = self.split(budget.max(k), k);
+        let mut cs = vec![];
+        for (i, p) in parts.into_iter().enumerate() {
+            let n = if i < CTORS.len() { CTORS[(i + self.rng.below(3) as usize) % CTORS.len()] } else { "Z" };
+            let n = format!("{}{}", n, if cs.iter().any(|(m, _): &(String, Ctor)| m == n) { i.to_string() } else { String::new() });
+            if self.rng.chance(1, 4) {
+                let mut t = self.ty(p);
+                if !self.rng.chance(1, 10) {
+                    // the grammar makes every argument of a GADT-style constructor explicit
+                    fn explicit(t: &mut Ty) {
+                        if let Ty::Fun(i, _, r) = t {
+                            *i = false;
+                            explicit(r);
+                        }
+                    }
+                    explicit(&mut t);
+                }
+                cs.push((n, Ctor::Gadt(t)));
+            } else {
+                let na = self.rng.below(4.min(p as u64 + 1)) as usize;
+                let args = if na == 0 { vec![] } else { self.split(p.max(na), na).into_iter().map(|q| self.ty(q)).collect() };
+                cs.push((n, Ctor::Simple(args)));
+            }
+        }
+        Ty::Variant(cs, self.rest())
+    }
+}
+
+/// Classes on which the Coq model mirrors printer and parser (so tokens and parses are compared).
+fn model_mirrors(class: &str) -> bool {
+    class == "plain" || class == "variant-below-root" || class == "gadt-implicit-argument"
+}
+
+/// Hand-written members of the classes outside the normal form.  (Ill-kinded shapes -- an
+/// application whose head is a function or a forall, a variant whose row tail is an application --
+/// are outside the quantifier of the property and are not generated at all.)
+fn defect_class_probes() -> Vec<Ty> {
+    let f = |a: Ty, b: Ty| Ty::Fun(false, Box::new(a), Box::new(b));
+    let app = |h: Ty, a: Vec<Ty>| Ty::App(Box::new(h), a);
+    let rec = |fs: Vec<(&str, Ty)>, r: Option<Ty>| Ty::Record(vec![], fs.into_iter().map(|(n, t)| (n.to_string(), t)).collect(), r.map(Box::new));
+    let var = |cs: Vec<(&str, Vec<Ty>)>, r: Option<Ty>| Ty::Variant(cs.into_iter().map(|(n, t)| (n.to_string(), Ctor::Simple(t))).collect(), r.map(Box::new));
+    let ab = || var(vec![("A", vec![id("Int")]), ("B", vec![])], None);
+    vec![
+        // variant-below-root
+        f(ab(), id("Int")),
+        f(id("Int"), ab()),
+        app(id("F"), vec![ab()]),
+        rec(vec![("x", ab())], None),
+        Ty::Forall(vec!["a".into()], Box::new(var(vec![("A", vec![id("a")])], None))),
+        Ty::Tuple(vec![id("Int"), ab()]),
+        Ty::Record(vec![("Test".into(), vec![], ab())], vec![], None),
+        var(vec![("A", vec![ab()])], None),
+        app(id("F"), vec![var(vec![], Some(id("r")))]),
+        f(var(vec![], Some(id("r"))), id("Int")),
+        Ty::Variant(vec![("A".into(), Ctor::Gadt(f(ab(), id("T"))))], None),
+        // open-empty-record
+        rec(vec![], Some(id("r"))),
+        f(rec(vec![], Some(id("r"))), id("Int")),
+        // singleton-tuple
+        Ty::Tuple(vec![id("Int")]),
+        app(id("F"), vec![Ty::Tuple(vec![f(id("a"), id("b"))])]),
+        // empty-variant
+        var(vec![], None),
+        // equivalent spellings (these do read back, up to the equivalence)
+        app(app(id("F"), vec![id("a")]), vec![id("b")]),
+        app(Ty::FunCon, vec![id("a"), id("b")]),
+        app(app(Ty::FunCon, vec![id("a")]), vec![id("b")]),
+        rec(vec![], None),
+    ]
+}
+
+// ---------------------------------------------------------------------------------------------
+// one type through everything
+// ---------------------------------------------------------------------------------------------
+struct Out {
+    model_in: std::io::BufWriter<std::fs::File>,
+    impl_out: std::io::BufWriter<std::fs::File>,
+    cases: std::io::BufWriter<std::fs::File>,
+    roundtrip: std::io::BufWriter<std::fs::File>,
+    names: Names,
+    hist: Hist,
+    distinct: std::collections::HashSet<u64>,
+    lines: u64,
+    evaluations: u64,
+    nontrivial: u64,
+    rt_fail: u64,
+    samples: Vec<serde_json::Value>,
+}
+
+impl Out {
+    fn case(&mut self, model: &str, imp: &str, human: &str) {
+        writeln!(self.model_in, "{}", model).unwrap();
+        writeln!(self.impl_out, "{}", imp).unwrap();
+        writeln!(self.cases, "{}", human.replace('\n', "\\n")).unwrap();
+        self.lines += 1;
+    }
+}
+
+fn model_parse_line(names: &mut Names, ctx: Ctx, toks: &[String]) -> String {
+    let mut s = String::from(if ctx == Ctx::Let { "parse let" } else { "parse top" });
+    for t in toks {
+        s.push(' ');
+        s.push_str(&names.tok(t));
+    }
+    s
+}
+fn impl_parse_line(names: &mut Names, r: &Result<Ty, String>, hist: &mut Hist) -> String {
+    match r {
+        Ok(t) if in_fragment(t) => {
+            hist.add("parse:accepted");
+            format!("ok {}", sx_num(&names.num(t)))
+        }
+        Ok(_) => {
+            hist.add("parse:accepted-outside-fragment");
+            "reject".into()
+        }
+        Err(_) => {
+            hist.add("parse:rejected");
+            "reject".into()
+        }
+    }
+}
+
+/// `with_model`: compare the printer's tokens and the parsers with the model (classes the model
+/// mirrors); otherwise only the property itself is evaluated on the implementation.
+fn run_type(t: &Ty, family: &str, with_model: bool, mutants: usize, rng: &mut Rng, o: &mut Out) {
+    let class = class_of(t);
+    let mut sy = Symbols::new();
+    let arc = to_arc(t, &mut sy);
+    let expected = norm(&canon(&arc));
+    let root_variant = matches!(t, Ty::Variant(..));
+    o.hist.add(&format!("family:{}", family));
+    o.hist.add(&format!("class:{}", class));
+    o.hist.add(&format!("size:{}", size(t).min(20)));
+    kinds(t, &mut o.hist);
+    if size(t) >= 3 && o.distinct.insert(fnv(sx(t).as_bytes())) {
+        o.nontrivial += 1;
+    }
+
+    // (1) the real printer at every width
+    let mut renderings: Vec<(Option<usize>, String)> = vec![];
+    let mut tok_sets: Vec<Vec<String>> = vec![];
+    let mut lex_error = None;
+    for w in std::iter::once(None).chain(WIDTHS.iter().map(|w| Some(*w))) {
+        let p = std::panic::catch_unwind(std::panic::AssertUnwindSafe(|| print_at(&arc, w))).unwrap_or_else(|_| "<printer panicked>".to_string());
+        match tokens(&p) {
+            Ok(ts) => {
+                if !tok_sets.contains(&ts) {
+                    tok_sets.push(ts);
+                }
+            }
+            Err(e) => lex_error = Some(e),
+        }
+        if p.contains('\n') {
+            o.hist.add("rendering:multi-line");
+        } else {
+            o.hist.add("rendering:one-line");
+        }
+        if !renderings.iter().any(|(_, q)| *q == p) {
+            renderings.push((w, p));
+        }
+    }
+    if with_model {
+        let imp = match (&lex_error, tok_sets.len()) {
+            (Some(e), _) => format!("printer output does not lex: {}", e),
+            (None, 1) => {
+                let mut s = String::from("toks");
+                for tk in &tok_sets[0] {
+                    s.push(' ');
+                    s.push_str(&o.names.tok(tk));
+                }
+                s
+            }
+            _ => format!("width-dependent tokens: {:?}", tok_sets),
+        };
+        let model = format!("print {}", sx_num(&o.names.num(t)));
+        o.case(&model, &imp, &format!("print {}", sx(t)));
+    }
+
+    // (2) the property: every rendering reads back as an equivalent type
+    let ctxs: &[Ctx] = if root_variant { &[Ctx::TypeBind] } else { &[Ctx::Let, Ctx::TypeBind] };
+    let mut first = true;
+    for (w, p) in &renderings {
+        for ctx in ctxs {
+            let src = source(*ctx, p);
+            let r = parse_real(*ctx, &src);
+            o.evaluations += 1;
+            let ok = matches!(&r, Ok(c) if norm(c) == expected);
+            o.hist.add(if ok { "roundtrip:ok" } else { "roundtrip:FAILED" });
+            if !ok {
+                o.rt_fail += 1;
+                let observed = match &r {
+                    Ok(c) => format!("parsed as {}", sx(c)),
+                    Err(e) => format!("parse error: {}", e),
+                };
+                let key = if class == "plain" { format!("type-roundtrip:{}", sx(&expected)) } else { format!("type-roundtrip:{}:{}", class, sx(&expected)) };
+                let v = serde_json::json!({
+                    "key": key, "class": class, "type": sx(t), "canonical": sx(&expected), "printed": p,
+                    "width": w.map(|w| w as i64).unwrap_or(-1), "ctx": format!("{:?}", ctx), "observed": observed, "family": family,
+                });
+                writeln!(o.roundtrip, "{}", v).unwrap();
+            }
+            // (3a) model parser vs real parser on the printed text (first rendering only: the
+            // tokens are the same at every width)
+            if with_model && first {
+                if let Ok(ts) = tokens(p) {
+                    let m = model_parse_line(&mut o.names, *ctx, &ts);
+                    let i = impl_parse_line(&mut o.names, &r, &mut o.hist);
+                    o.case(&m, &i, &format!("parse {:?} {}", ctx, p));
+                }
+            }
+        }
+        first = false;
+    }
+    if o.samples.len() < 6 && size(t) >= 4 && (o.lines % 7 == 0) {
+        o.samples.push(serde_json::json!({"type": sx(t), "printed": renderings[0].1, "class": class}));
+    }
+
+    // (3b) one-token mutants of the printed token string
+    if with_model && mutants > 0 && lex_error.is_none() && !tok_sets.is_empty() && !tok_sets[0].is_empty() {
+        let base = &tok_sets[0];
+        for _ in 0..mutants {
+            let mut ts = base.clone();
+            let i = rng.below(ts.len() as u64) as usize;
+            let kind = if rng.chance(1, 2) {
+                ts.remove(i);
+                "delete"
+            } else {
+                let d = ts[i].clone();
+                ts.insert(i, d);
+                "duplicate"
+            };
+            if ts.is_empty() {
+                continue;
+            }
+            let text = ts.join(" ");
+            let ctx = if root_variant || rng.chance(1, 4) { Ctx::TypeBind } else { Ctx::Let };
+            let r = parse_real(ctx, &source(ctx, &text));
+            o.evaluations += 1;
+            o.hist.add(&format!("mutant:{}", kind));
+            let m = model_parse_line(&mut o.names, ctx, &ts);
+            let i = impl_parse_line(&mut o.names, &r, &mut o.hist);
+            o.case(&m, &i, &format!("parse {:?} {}", ctx, text));
+        }
+    }
+}
+
+// ---------------------------------------------------------------------------------------------
+// vm/src/api/typ.rs make_source
+// ---------------------------------------------------------------------------------------------
+mod rust_types {
+    use serde_derive::Deserialize;
+    #[derive(Deserialize)]
+    pub struct Address {
+        pub street: String,
+        pub city: String,
+        pub number: i32,
+    }
+    #[derive(Deserialize)]
+    pub struct Nested {
+        pub name: String,
+        pub address: Address,
+        pub tags: Vec<String>,
+        pub score: Option<f64>,
+    }
+    #[derive(Deserialize)]
+    pub enum Shape {
+        Circle(f64),
+        Rect(f64, f64),
+        Unit,
+    }
+    #[derive(Deserialize)]
+    pub enum WithStruct {
+        Named { width: i32, height: i32 },
+        Other(String),
+    }
+    #[derive(Deserialize)]
+    pub struct Pair(pub i32, pub String);
+    #[derive(Deserialize)]
+    pub struct Wrapper(pub i32);
+    #[derive(Deserialize)]
+    pub struct ManyFields {
+        pub a_rather_long_field_name_number_one: String,
+        pub a_rather_long_field_name_number_two: Vec<Option<String>>,
+        pub a_rather_long_field_name_number_three: (i32, f64, String),
+        pub a_rather_long_field_name_number_four: Option<Vec<(String, i32)>>,
+    }
+    #[derive(Deserialize)]
+    pub struct HoldsEnum {
+        pub shape: Shape,
+        pub id: i32,
+    }
+}
+
+fn make_source_cases(o: &mut Out) {
+    use gluon_vm::api::typ::{from_rust, make_source};
+    let vm = gluon::VmBuilder::new().build();
+    let hook = std::panic::take_hook();
+    std::panic::set_hook(Box::new(|_| {}));
+    macro_rules! one {
+        ($t:ty, $name:expr) => {{
+            let r = std::panic::catch_unwind(std::panic::AssertUnwindSafe(|| (make_source::<$t>(&vm), from_rust::<$t>(&vm))));
+            o.evaluations += 1;
+            match r {
+                Ok((Ok(src), Ok((_, typ)))) => {
+                    let expected = norm(&canon(&typ));
+                    let parsed = parse_real(Ctx::TypeBind, &src);
+                    let ok = matches!(&parsed, Ok(c) if norm(c) == expected);
+                    o.hist.add(if ok { "make_source:ok" } else { "make_source:FAILED" });
+                    if !ok {
+                        o.rt_fail += 1;
+                        let observed = match &parsed {
+                            Ok(c) => format!("parsed as {}", sx(c)),
+                            Err(e) => format!("parse error: {}", e),
+                        };
+                        let v = serde_json::json!({
+                            "key": format!("type-roundtrip:make_source:{}", $name), "class": "make_source", "type": sx(&expected), "canonical": sx(&expected),
+                            "printed": src, "width": 80, "ctx": "make_source", "observed": observed, "family": "make_source",
+                        });
+                        writeln!(o.roundtrip, "{}", v).unwrap();
+                    }
+                }
+                Ok((a, b)) => {
+                    o.hist.add("make_source:unsupported-rust-type");
+                    eprintln!("make_source {}: {:?} / {:?}", $name, a.err().map(|e| e.to_string()), b.err().map(|e| e.to_string()));
+                }
+                Err(_) => {
+                    // from_rust panics (vm/src/api/typ.rs:486 `expect("typ")`) before any type is
+                    // printed: nothing to read back; recorded in the input distribution only
+                    o.hist.add("make_source:panicked-before-printing");
+                    eprintln!("make_source {}: from_rust panicked", $name);
+                }
+            }
+        }};
+    }
+    one!(rust_types::Address, "Address");
+    one!(rust_types::Nested, "Nested");
+    one!(rust_types::Shape, "Shape");
+    one!(rust_types::WithStruct, "WithStruct");
+    one!(rust_types::Pair, "Pair");
+    one!(rust_types::Wrapper, "Wrapper");
+    one!(rust_types::ManyFields, "ManyFields");
+    one!(rust_types::HoldsEnum, "HoldsEnum");
+    std::panic::set_hook(hook);
+}
+
+fn replay(path: &str) {
+    let v: serde_json::Value = serde_json::from_str(&std::fs::read_to_string(path).expect("replay file")).expect("json");
+    let case = &v["case"];
+    let tsx = case["type"].as_str().expect("case.type");
+    let t = match read_sx(tsx).and_then(|x| ty_of_sx(&x)) {
+        Ok(t) => t,
+        Err(e) => {
+            println!("cannot read the type of the replay: {}", e);
+            return;
+        }
+    };
+    let mut sy = Symbols::new();
+    let arc = to_arc(&t, &mut sy);
+    let expected = norm(&canon(&arc));
+    println!("type:      {}", sx(&t));
+    println!("canonical: {}", sx(&expected));
+    let w = case["width"].as_i64().unwrap_or(-1);
+    let widths: Vec<Option<usize>> = if w < 0 { vec![None] } else { vec![Some(w as usize)] };
+    let mut failed = false;
+    for w in widths.into_iter().chain(std::iter::once(None)).chain(WIDTHS.iter().map(|w| Some(*w))) {
+        let p = print_at(&arc, w);
+        let ctxs: &[Ctx] = if matches!(t, Ty::Variant(..)) { &[Ctx::TypeBind] } else { &[Ctx::Let, Ctx::TypeBind] };
+        for ctx in ctxs {
+            let r = parse_real(*ctx, &source(*ctx, &p));
+            let verdict = match &r {
+                Ok(c) if norm(c) == expected => "reads back as the same type".to_string(),
+                Ok(c) => {
+                    failed = true;
+                    format!("READS BACK AS A DIFFERENT TYPE {}", sx(c))
+                }
+                Err(e) => {
+                    failed = true;
+                    format!("DOES NOT PARSE: {}", e)
+                }
+            };
+            println!("width {:?} in {:?}: {:?}\n    {}", w, ctx, p, verdict);
+        }
+    }
+    println!("{}", if failed { "replay: the property FAILS on this type" } else { "replay: the property holds on this type" });
+}
+
 fn main() {
     let args = Args::parse();
     if args.rest.iter().any(|a| a == "probe") {
@@ -694,9 +1721,114 @@ fn main() {
         probe_raw();
         return;
     }
-    let _ = (fnv(b""), Rng::new(0), Hist::default(), contains_variant(&Ty::FunCon), size(&Ty::FunCon));
-    let mut h = Hist::default();
-    kinds(&Ty::FunCon, &mut h);
-    let mut f = args.file("stats.json");
-    writeln!(f, "{{}}").unwrap();
+    if let Some(path) = &args.replay {
+        replay(path);
+        return;
+    }
+    let mut o = Out {
+        model_in: args.file("model_in.txt"),
+        impl_out: args.file("impl_out.txt"),
+        cases: args.file("cases.txt"),
+        roundtrip: args.file("roundtrip.jsonl"),
+        names: Names::new(),
+        hist: Hist::default(),
+        distinct: Default::default(),
+        lines: 0,
+        evaluations: 0,
+        nontrivial: 0,
+        rt_fail: 0,
+        samples: vec![],
+    };
+    let mut rng = Rng::new(args.seed);
+    let thorough = args.thorough();
+    let get = |k: &str, d: usize| args.extra.get(k).and_then(|s| s.parse().ok()).unwrap_or(d);
+
+    // Family 0: corpus (s-expressions, one per line; `#` comments)
+    let corpus_dir = args.extra.get("corpus").cloned().unwrap_or_else(|| "/verif/corpus/C18".to_string());
+    let mut corpus_n = 0;
+    if let Ok(rd) = std::fs::read_dir(&corpus_dir) {
+        let mut files: Vec<_> = rd.filter_map(|e| e.ok()).map(|e| e.path()).filter(|p| p.extension().map(|x| x == "sexp").unwrap_or(false)).collect();
+        files.sort();
+        for f in files {
+            for line in std::fs::read_to_string(&f).unwrap_or_default().lines() {
+                let line = line.trim();
+                if line.is_empty() || line.starts_with('#') {
+                    continue;
+                }
+                match read_sx(line).and_then(|x| ty_of_sx(&x)) {
+                    Ok(t) => {
+                        let c = class_of(&t);
+                        run_type(&t, "corpus", model_mirrors(c), 2, &mut rng, &mut o);
+                        corpus_n += 1;
+                    }
+                    Err(e) => panic!("corpus {}: {}: {}", f.display(), line, e),
+                }
+            }
+        }
+    }
+
+    // Family 1: exhaustive, variant-free normal form
+    let maxsize = get("maxsize", if thorough { 6 } else { 5 });
+    let by = enumerate(maxsize);
+    let mut exhaustive_n = 0u64;
+    for n in 1..=maxsize {
+        for (i, t) in by[n].iter().enumerate() {
+            let mutants = if i % 4 == 0 { 1 } else { 0 };
+            run_type(t, "exhaustive", true, mutants, &mut rng, &mut o);
+            exhaustive_n += 1;
+        }
+    }
+    // Family 2: exhaustive root variants (type declaration bodies)
+    let vmax = get("vmaxsize", if thorough { 7 } else { 6 });
+    let by_small = enumerate(vmax.saturating_sub(2).max(1).min(maxsize));
+    let variants = enumerate_variants(&by_small, vmax);
+    let variants_n = variants.len();
+    for (i, t) in variants.iter().enumerate() {
+        run_type(t, "exhaustive-variant", model_mirrors(class_of(t)), if i % 4 == 0 { 1 } else { 0 }, &mut rng, &mut o);
+    }
+    // Family 3: random, larger, long names (line breaks at the narrow widths)
+    let nrand = get("random", if thorough { 400000 } else { 20000 });
+    let maxrand = get("randsize", if thorough { 14 } else { 10 });
+    for i in 0..nrand {
+        let budget = 2 + rng.below(maxrand as u64 - 1) as usize;
+        let t = {
+            let mut g = Gen { rng: &mut rng };
+            if i % 5 == 4 { g.variant(budget) } else { g.ty(budget) }
+        };
+        let c = class_of(&t);
+        run_type(&t, "random", model_mirrors(c), 1, &mut rng, &mut o);
+    }
+    // Family 4: the shapes outside the normal form (property only; the model is compared where
+    // it mirrors the printer on them)
+    for t in defect_class_probes() {
+        let c = class_of(&t);
+        run_type(&t, "outside-normal-form", model_mirrors(c), 0, &mut rng, &mut o);
+    }
+    // Family 5: generated type declarations
+    make_source_cases(&mut o);
+
+    o.model_in.flush().unwrap();
+    o.impl_out.flush().unwrap();
+    o.cases.flush().unwrap();
+    o.roundtrip.flush().unwrap();
+    gvh::out::write_json(
+        &args.out.join("stats.json"),
+        &serde_json::json!({
+            "evaluations": o.evaluations,
+            "model_cases": o.lines,
+            "distinct_nontrivial": o.nontrivial,
+            "rule": "one evaluation = one (type, rendering, context) read back by the real parser, or one mutated token string parsed by both parsers; non-trivial = distinct types (by canonical s-expression) with at least 3 nodes",
+            "exhaustive_maxsize": maxsize,
+            "exhaustive_types": exhaustive_n,
+            "exhaustive_variant_maxsize": vmax,
+            "exhaustive_variants": variants_n,
+            "random_types": nrand,
+            "random_maxsize": maxrand,
+            "corpus_types": corpus_n,
+            "widths": WIDTHS,
+            "roundtrip_failures": o.rt_fail,
+            "samples": o.samples,
+            "hist": o.hist.to_json(),
+        }),
+    );
 }
